@@ -327,8 +327,9 @@ fn bomb(rng: &mut StdRng, ctx: &Ctx, entry: &str, base: &mut Base, declared: u32
     if !source_entry(entry, &base.cfg) {
         return false;
     }
-    thread_local! { static BOMB: std::cell::OnceCell<Vec<u8>> = const { std::cell::OnceCell::new() }; }
-    let body = BOMB.with(|b| b.get_or_init(|| valve::bz2_zeros(300)).clone());
+    // (one compressor process per harness process; 128 MiB is twice the live allowance and eight times the single-request one)
+    static BOMB: std::sync::OnceLock<Vec<u8>> = std::sync::OnceLock::new();
+    let body = BOMB.get_or_init(|| valve::bz2_zeros(128)).clone();
     let Some((_, batches)) = base.conns.get_mut(0) else { return false };
     // a slot that carries a section reply (not a challenge packet)
     let slots: Vec<usize> = batches.iter().enumerate().filter(|(_, b)| b.first().map_or(false, |d| d.len() > 9 && !(d[.. 5] == [0xff, 0xff, 0xff, 0xff, 0x41]))).map(|(i, _)| i).collect();
